@@ -372,7 +372,8 @@ class Ctx:
         if kf is not None:
             self.known_hits[kf["id"]] += 1
             return
-        if len(self.violations) >= 80:
+        same = len([v for v in self.violations if v and v["component"] == component and v["kind"] == kind])
+        if len([v for v in self.violations if v]) >= 80 or same >= 10:       # at most 10 replays per (component, kind): other kinds stay visible
             self.violations.append(None)
             return
         n = len([v for v in self.violations if v])
